@@ -182,15 +182,14 @@ BinderRuns(s, p, out, rule) ==
                             !.bound[p] = s.bound[p] \/ (bindCalled /\ ~errc),
                             !.att[p] = IF bindCalled THEN Sat(s.att[p] + 1) ELSE s.att[p],
                             !.fl[p] = IF errc THEN Sat(s.fl[p] + 1) ELSE s.fl[p],
-                            !.q[p] = changed \/ inc \/ panic],   \* update event | returned error | RequeueAfter
-         \* UpdateStatus swallows the error when it patches nothing; the error of a recovered panic is always returned
-         err |-> (changed /\ errc) \/ panic, rq |-> IF inc THEN Pow2(b.fa) ELSE 0, bind |-> bindCalled] : L \in labs}
+                            !.q[p] = changed \/ inc],   \* update event | returned error | RequeueAfter
+         \* UpdateStatus swallows the error when it patches nothing - also the error of a recovered panic (fix G46: it used
+         \* to be returned always, which re-queued a terminally failed request for ever while Bind kept panicking)
+         err |-> changed /\ errc, rq |-> IF inc THEN Pow2(b.fa) ELSE 0, bind |-> bindCalled] : L \in labs}
 
-\* Environment: Bind panics only while the request is not terminally failed.  A panic on a terminally failed request
-\* returns an error again (re-queue; BinderRuns describes it), so the attempts are not bounded as long as Bind keeps
-\* panicking and no scheduler cycle deletes the request.  The harness skips such a step like any step that is not
-\* enabled (flag -panic-terminal executes it: reproduction of that behaviour on the real reconciler).
-PanicEnabled(s, p) == Reach(s, p) /\ ~Terminal(s.br[p], s.lim)
+\* A panic can hit any attempt that gets as far as the binding call, also on a terminally failed request (there the
+\* reconcile records nothing and - since fix G46 - returns no error: no re-queue, like any other bind error).
+PanicEnabled(s, p) == Reach(s, p)
 StatusLostEnabled(s, p) == s.q[p] /\ Reach(s, p)
 StatusLostPost(s, p) == [s EXCEPT !.bound[p] = TRUE, !.att[p] = Sat(s.att[p] + 1), !.q[p] = FALSE,
                                   !.lab[p] = IF IsFrac(s, p) THEN s.dev[p] ELSE s.lab[p]]
@@ -232,7 +231,6 @@ BinderAttempt(p, out) ==
   \* canonical label: `out` only matters when the binder gets as far as reserving/binding
   /\ ~Reach(S, p) => out = (IF S.persist THEN "fail" ELSE "ok")
   /\ out = "faillabel" => Reach(S, p) /\ IsFrac(S, p) /\ S.nd[p] = 2 /\ S.leaks < MaxLeaks
-  \* environment: Bind panics only on a request that is not yet terminally failed (see PanicEnabled)
   /\ out = "panic" => PanicEnabled(S, p) /\ (IsFrac(S, p) => S.leaks < MaxLeaks)
   /\ \E r \in BinderRuns(S, p, out, PatchRule) : S' = r.post
   /\ obs' = NoObs /\ act' = NoAct("BinderAttempt", p, out)
